@@ -211,11 +211,16 @@ func customTraceExportHandler(
 	// Get request info from GRPC metadata and prepare our custom wrapper.
 	ri := huskyotlp.GetRequestInfoFromGrpcMetadata(ctx)
 
-	// Handle SendKeyMode logic before validation, similar to HTTP handler
+	// Check the key the client sent against AcceptOnlyListedKeys first, then apply
+	// the SendKeyMode logic, in the same order as the HTTP handlers. Checking after
+	// the replacement would accept any key that SendKeyMode turns into the SendKey.
 	apicfg := traceServer.router.Config.GetAccessKeyConfig()
 	keyID := ""
 	if apicfg.HasKeyIDs() {
 		keyID = traceServer.router.getKeyID(ri.ApiKey)
+	}
+	if err := apicfg.IsAccepted(ri.ApiKey, keyID); err != nil {
+		return nil, status.Error(codes.Unauthenticated, err.Error())
 	}
 	keyToUse, err := apicfg.GetReplaceKey(ri.ApiKey, keyID)
 	if err != nil {
